@@ -71,11 +71,11 @@ theorem contains_hash_false (s : Bytes) (h : ∀ c ∈ s, c ≠ 35) : s.contains
 
 /-- a leaf port: one walker call per element of `expandFirst`, the buffer afterwards is the
     prefix followed by some NUL-free text and a terminator -/
-theorem walkPort_leaf (base : List PortT) (path : List Nat) (i : Nat) (w : WName) (md : Option Bytes)
-    (pre J : Buf) (hw : w.ok = true) (hpre : NulFree pre)
+theorem walkPort_leaf (base : List PortT) (path : List Nat) (rt : Option Obj) (i : Nat) (w : WName)
+    (md : Option Bytes) (pre J : Buf) (hw : w.ok = true) (hpre : NulFree pre)
     (hcap : (STree.leaf w md).need ≤ J.length) :
     ∃ s J', NulFree s ∧
-      walkPort {} base path none pre.length i (STree.leaf w md).toPort (pre ++ 0 :: J) =
+      walkPort {} base path rt pre.length i (STree.leaf w md).toPort (pre ++ 0 :: J) =
         .ok (codeTree pre (path ++ [i]) (.leaf w md), pre ++ s ++ 0 :: J') ∧
       s.length + J'.length = J.length := by
   obtain ⟨hhead, hparts, htypes⟩ := WName.ok_spec hw
@@ -468,7 +468,7 @@ theorem walkPort_spec : ∀ (t : STree) (base : List PortT) (path : List Nat) (i
         .ok (codeTree pre (path ++ [i]) t, pre ++ s ++ 0 :: J') ∧
       s.length + J'.length = J.length
   | .leaf w md, base, path, i, pre, J, hwf, hpre, _, hcap =>
-    walkPort_leaf base path i w md pre J (by simpa [STree.wf, WName.leafOk] using hwf) hpre hcap
+    walkPort_leaf base path none i w md pre J (by simpa [STree.wf, WName.leafOk] using hwf) hpre hcap
   | .sub w md kids, base, path, i, pre, J, hwf, hpre, hne, hcap => by
     simp only [STree.wf, Bool.and_eq_true] at hwf
     obtain ⟨hok, hheadne, hslash, hpos⟩ := WName.subOk_spec hwf.1
